@@ -90,6 +90,9 @@ def classify_crash(err, rc, meta, tree, mtext=""):
     if ("pc points to the zero page" in (err or "") and re.search(r"#0 0x0\s", err) and syn in ("uper", "oer") and re.search(r"\bSET\s*\{", mtext)
             and len(funcs) >= 1 and re.match(r"(\w+_decode_(uper|oer)@constr_|uper_decode@per_decoder|oer_decode@oer_decoder|uper_open_type_get_simple@per_opentype)", funcs[0])):
         return "C04-set-no-per-oer-null-call"
+    if (funcs[:1] == ["SET_OF_encode_uper@constr_SET_OF.c"] and syn == "uper" and "asn_encode_to_new_buffer@asn_application.c" in funcs
+            and ("_el_buffer" in err or "SEGV" in err) and meta.get("dec_rerun", {}).get("ck") == -1):
+        return "C04-setof-encode-uper-null"
     return None
 
 
@@ -107,6 +110,23 @@ def oer_zero_length_tail(data):
         if data.endswith(tail):
             return True
     return data.endswith(b"\x00")
+
+
+def rerun_reencode_crashes(jobs, cres):
+    """a process that died inside the RE-ENCODING step of d4 (after a successful decode): run the same input through
+    `dec` (decode, DER only, print, validate, free) to learn whether the decoded value violates a constraint"""
+    todo = []
+    for j, ((m, lines, metas), (outs, errs)) in enumerate(zip(jobs, cres)):
+        for i, info in errs.items():
+            if info[0] == "CRASH" and "asn_encode_to_new_buffer" in (info[2] or "") and "cmd_d4" in info[2]:
+                todo.append((j, i))
+    if not todo:
+        return
+    res = run_many([(jobs[j][0]["exe"], ["dec" + jobs[j][1][i][2:]]) for (j, i) in todo], per_chunk=1)
+    for (j, i), (o, e) in zip(todo, res):
+        mm = re.match(r"^(OK|MORE|FAIL) (\d+) (\S+) ck=(-?\d+)$", o[0] or "")
+        if mm and not e:
+            jobs[j][2][i]["dec_rerun"] = {"rc": mm.group(1), "der": mm.group(3), "ck": int(mm.group(4))}
 
 
 def report_crash(run, m, line, meta, info, layer):
@@ -176,6 +196,12 @@ def reencode_taint(m):
             return "C01-uper-semiconstrained-lb"
         if meta["syn"] in ("oer", "uper") and has_unsigned_native(tree) and der_has_negative_prim(r["der"]):
             return "C16-ulong-signed"
+        if meta["syn"] == "uper":
+            try:
+                if BerAccepted(tree, bytes.fromhex(r["der"])).lists_above_bound():
+                    return "C04-uper-count-above-bound"
+            except (ValueError, IndexError):
+                pass
         return None
     return t
 
@@ -233,6 +259,7 @@ def model_layer(run, rng, tier, model):
     tlog("model: %d mutant lines generated" % sum(len(j[1]) for j in jobs))
     cres = run_many([(m["exe"], lines) for m, lines, metas in jobs])
     tlog("model: C side done, %d process deaths" % sum(len(e) for o, e in cres))
+    rerun_reencode_crashes(jobs, cres)
     allres = []
     mlines, mwhere = [], []
     for (m, lines, metas), (outs, errs) in zip(jobs, cres):
@@ -405,6 +432,7 @@ def wide_layer(run, rng, tier):
     tlog("wide: %d mutant lines generated" % sum(len(j[1]) for j in jobs))
     cres = run_many([(m["exe"], lines) for m, lines, metas in jobs], per_chunk=40)
     tlog("wide: C side done, %d process deaths" % sum(len(e) for o, e in cres))
+    rerun_reencode_crashes(jobs, cres)
     for (m, lines, metas), (outs, errs) in zip(jobs, cres):
         for i, (l, o, me) in enumerate(zip(lines, outs, metas)):
             run.case(l)
@@ -418,6 +446,10 @@ def wide_layer(run, rng, tier):
         if lines:
             run.sample({"wide_module": m["text"][:300], "lines": len(lines), "first": lines[0][:100], "c": outs[0][:100]})
     return wmods
+
+
+# more than 200 repetitions of one zero-size element value (NULL, empty OCTET STRING, SEQUENCE of such)
+ZERO_RUN = re.compile(r"(N|O;|S\{[NO;L{}S]*?\})\1{200,}")
 
 
 def refine_disagreement(run, m, line, o, me, r, n, v, d):
@@ -438,7 +470,7 @@ def refine_disagreement(run, m, line, o, me, r, n, v, d):
                 fid = "C16-umax-negative"
         except (ValueError, IndexError):
             pass
-    elif syn in ("oer", "uper") and r["rc"] == "FAIL" and zero_size_elem_list(tree, syn) and re.search(r"N{201,}|(O;){201,}|(S\{\}){201,}", v):
+    elif syn in ("oer", "uper") and r["rc"] == "FAIL" and zero_size_elem_list(tree, syn) and re.search(ZERO_RUN, v):
         fid = "C04-zero-size-elements-guard"
     if fid:
         run.known_finding(fid, line)
